@@ -17,7 +17,7 @@ import (
 
 func init() {
 	mon.RegisterCfg("C17", mon.Config{
-		Rule: "every sequence of <=3 (quick) / <=4 (thorough) operations from a boundary-offset alphabet, for 14 input lengths x 5 source-reader behaviours, plus random 200-step sequences; after every step value, error class, Pos, Size and the cache-window invariant are compared with a slice model; distinct = distinct (config, operation sequence) of the exhaustive part plus random sequences",
+		Rule: "every sequence of <=3 (quick) / <=4 (thorough) operations from a boundary-offset alphabet, for 14 input lengths x 5 source-reader behaviours, plus random 200-step sequences; after every step value, error class, Pos, Size and the cache-window invariant are compared with a slice model; distinct = distinct (config, operation sequence) of the exhaustive part plus random sequences Further: far seeks (2^31 ... 2^62 plus small distances), lists returned by ReadUint16Slice kept and appended to by the caller.",
 		Assumptions: []string{
 			"the source reader obeys the io.Reader/io.Seeker contracts (never returns (0,nil) forever, Seek to p>=0 succeeds)",
 			"after a failed ReadUint16Slice the cursor is unspecified; the monitor re-seeks",
